@@ -57,10 +57,16 @@ def gen(rng, adversarial=False):
         rr = rng.uniform(0, 1.0) * rad
         tt = rng.uniform(0, 2 * np.pi)
         return rr * np.array([np.sin(tt), np.cos(tt)])
-    start = (zero + ball(1.0), a + ball(0.2), b + ball(0.2))
     tol = float(rng.choice([1.5, 2.0, 3.0]))
+    # half of the cases: start error small enough that the FIRST matching round provably catches every inlier (see `complete`);
+    # the other half: the full 'about a pixel' range, where a far inlier may legitimately be missed by the first round
+    sc = 1.0 if rng.random() < 0.5 else 0.18 * tol
+    dz, da, db = ball(sc), ball(0.2 * sc if sc == 1.0 else 0.02 * tol), ball(0.2 * sc if sc == 1.0 else 0.02 * tol)
+    start = (zero + dz, a + da, b + db)
+    # worst-case first-round error of an inlier: (noise + |dz| + (|i|+|j|) max(|da|,|db|)) * sqrt(2) / sin(60 deg) must stay below the tolerance
+    bound = 1.64 * (0.3 + np.linalg.norm(dz) + 8 * max(np.linalg.norm(da), np.linalg.norm(db)))
     mm = int(rng.integers(3, 6))
-    return dict(pos=pos, w=w, kinds=kinds, true_idx=true_idx, start=start, tol=tol, mw=mw, mm=mm, true=(zero, a, b))
+    return dict(pos=pos, w=w, kinds=kinds, true_idx=true_idx, start=start, tol=tol, mw=mw, mm=mm, true=(zero, a, b), complete=bool(bound < tol))
 
 
 def gen_cloud(rng):
@@ -108,8 +114,11 @@ def stmt_failure(c):
     except Exception as e:  # noqa
         return 'fastmatch raised %s: %s' % (type(e).__name__, e)
     n_in = sum(1 for k in c['kinds'] if k == 'inlier')
+    # completeness (every inlier selected, hence a valid match when there are >= min_match of them) is only owed when the start error
+    # is small enough for the first round to catch every inlier at this tolerance; soundness is owed always
+    complete = c.get('complete', True)
     if m.isnan():
-        if n_in >= c['mm']:
+        if n_in >= c['mm'] and complete:
             return 'invalid match although %d inliers >= min_match=%d exist' % (n_in, c['mm'])
         if m.selector.any() or len(m.indices) != 0 or not np.isinf(m.error):
             return 'invalid match is not (NaN lattice, empty selection, infinite error)'
@@ -122,7 +131,7 @@ def stmt_failure(c):
         return 'a selected peak has elevation below min_weight'
     sel = [k for k in range(len(c['pos'])) if m.selector[k]]
     for k, kind in enumerate(c['kinds']):
-        if kind == 'inlier' and not m.selector[k]:
+        if kind == 'inlier' and not m.selector[k] and complete:
             return 'inlier #%d (within 0.3 px of lattice position %s) was not selected' % (k, c['true_idx'][k])
         if kind in ('outlier', 'weak') and m.selector[k]:
             return '%s peak #%d was selected' % (kind, k)
@@ -183,13 +192,13 @@ def adversarial(rng):
 
 def mk_replay(c, fail):
     return {'kind': 'input', 'call': 'Matcher.fastmatch', 'args': {'pos': c['pos'].tolist(), 'w': c['w'].tolist(), 'kinds': c['kinds'], 'true_idx': c['true_idx'],
-            'start': [v.tolist() for v in c['start']], 'tol': c['tol'], 'mw': c['mw'], 'mm': c['mm']}, 'failure': fail}
+            'start': [v.tolist() for v in c['start']], 'tol': c['tol'], 'mw': c['mw'], 'mm': c['mm'], 'complete': bool(c.get('complete', True))}, 'failure': fail}
 
 
 def replay(body):
     a = body['args']
     c = dict(pos=np.array(a['pos']), w=np.array(a['w']), kinds=a['kinds'], true_idx=[None if t is None else tuple(t) for t in a['true_idx']],
-             start=tuple(np.array(v) for v in a['start']), tol=a['tol'], mw=a['mw'], mm=a['mm'])
+             start=tuple(np.array(v) for v in a['start']), tol=a['tol'], mw=a['mw'], mm=a['mm'], complete=a.get('complete', True))
     fail = stmt_failure(c)
     print(json.dumps({'failure_now': fail}, indent=1))
     if fail:
@@ -315,4 +324,4 @@ def run(ctx):
                     'tolerance^2 <= |a|^2/(4 max(1,|i|)); parallel/zero vectors give Invalid; matching is translation invariant. Tie: the whole two-round '
                     'fastmatch in exact rationals vs Matcher.fastmatch on the same floats (selection, indices, lattice, validity).',
         rule='lattices |a|,|b| 20..40 px at 60..120 degrees, 4..25 inliers of rank 3 with noise <= 0.3 px, 0..6 half-cell outliers, 0..3 weak peaks (30 % of them with NaN elevation), permuted, start '
-             'perturbed by 0.7 px / 0.14 px, tolerances, min_match (also at the threshold); adversarial stream (empty, parallel, zero, NaN, inf, duplicates, collinear, zero weights).')
+             'perturbed by up to 1 px / 0.2 px (completeness demanded only when the worst-case first-round error stays below the tolerance), tolerances, min_match (also at the threshold); adversarial stream (empty, parallel, zero, NaN, inf, duplicates, collinear, zero weights).')
